@@ -95,9 +95,11 @@ theorem C11_rename (s : NS) (f t : Name) (hf : normName f ≠ inbox) (hok : (ren
     simp only [List.mem_append, List.mem_filter]
     exact Or.inl ⟨hb, by simp [hu]⟩
 
-/-- renaming INBOX leaves a fresh, different (hence empty) INBOX behind and moves the old object -/
+/-- renaming INBOX leaves a fresh, different (hence empty) INBOX behind, moves the old object, and leaves every
+other mailbox — the inferiors of INBOX included — where it was -/
 theorem C11_rename_inbox (s : NS) (t : Name) (hok : (rename s inbox t).2 = .ok) :
-    (rename s inbox t).1.inboxId = s.fresh ∧ (normName t, s.inboxId) ∈ (rename s inbox t).1.boxes := by
+    (rename s inbox t).1.inboxId = s.fresh ∧ (normName t, s.inboxId) ∈ (rename s inbox t).1.boxes ∧
+    (∀ b ∈ s.boxes, b ∈ (rename s inbox t).1.boxes) := by
   have hn : normName inbox = inbox := by decide
   unfold rename at hok ⊢
   simp only [hn] at hok ⊢
@@ -106,7 +108,7 @@ theorem C11_rename_inbox (s : NS) (t : Name) (hok : (rename s inbox t).2 = .ok) 
   split at hok; simp at hok
   rename_i h1 h2 h3
   simp only [h1, h2, h3, if_false, if_true, Bool.false_eq_true]
-  exact ⟨trivial, by simp⟩
+  exact ⟨trivial, by simp, fun b hb => by simp [hb]⟩
 
 /-- non-vacuity on the shapes that used to fail: a literal pattern does not match the name followed by a
 newline; `*` matches a name containing a newline -/
